@@ -4,11 +4,13 @@ import (
 	"encoding/json"
 	"fmt"
 	"os"
+	"os/signal"
 	"runtime"
 	"slices"
 	"sort"
 	"strconv"
 	"strings"
+	"syscall"
 	"testing"
 	"testing/synctest"
 	"time"
@@ -25,6 +27,9 @@ func TestMain(m *testing.M) {
 		n, _ = strconv.Atoi(v)
 	}
 	runtime.GOMAXPROCS(n)
+	// "disk full" windows are made with RLIMIT_FSIZE; the write must fail
+	// with EFBIG rather than kill the process
+	signal.Ignore(syscall.SIGXFSZ)
 	os.Exit(m.Run())
 }
 
